@@ -123,12 +123,13 @@ func (cl *c17client) take(peer string, timeout time.Duration) (c17resp, bool) {
 func runC17(c *ev.Ctx) {
 	c.Rule = "items are the integers 0..N-1 (sizes 10..40), payloads accumulate with a pointer receiver. (A) protocol runs: 1-4 peers, sessions with random start/stop, requests with MaxChunks 0..cfg, item-count limits incl. 0 and size limits incl. 0, interleaved resumes (also of the OLDEST of three live sessions), new sessions while three are live (pruning), peer unregistration followed by 40 barrier round-trips through another peer and a request on an old session id, requests after done, selector mismatches. The client is synchronous: after each request it collects the responses and checks them before going on. " +
 		"Oracle per session lifetime (ends at unregister or when the peer opens a NEW session while holding three): concatenated items are start, start+1, ... below stop, no gap, no repeat; each response has <= limit+1 items and stays below the size limit before its last item; at most MaxChunks responses per request, exactly MaxChunks unless a done response ends it; exactly one done, as last response, only when the stream reached min(stop, N); nothing after done. " +
-		"(B) memory runs: SendChunk blocks on a gate while requests pile up; VerifPendingResponsesSize() sampled from outside and in callbacks must stay <= MaxPendingResponsesSize + largest response; after the gate opens every stream is still in order. non-trivial = distinct protocol runs where a session was resumed >= 2 times while >= 2 other sessions of the peer were live"
+		"(B) memory runs: SendChunk blocks on a gate while requests pile up; VerifPendingResponsesSize() sampled from outside and in callbacks must stay <= MaxPendingResponsesSize + largest response; after the gate opens every stream is still in order. (C) failing sends: a peer whose every SendChunk returns an error requests several times the limit; afterwards the pending-response accounting is back at zero and a healthy peer receives its whole session in order with one done. non-trivial = distinct protocol runs where a session was resumed >= 2 times while >= 2 other sessions of the peer were live"
 	c.Assumptions = []string{"requests of one run are issued by one client goroutine, so the seeder processes them in issue order", "the order between an UnregisterPeer and later requests is forced by 40 barrier round-trips (each lost race has probability <= 1/2)", "a response not arriving within 20 s is 'missing'"}
 	nA := c.Pick(600, 12000)
 	c.Parallel(nA, 16, func(i int) { c17Protocol(c, c.Rand("proto", i), i) })
 	nB := c.Pick(40, 600)
 	c.Parallel(nB, 8, func(i int) { c17Memory(c, c.Rand("mem", i), i) })
+	c.Parallel(c.Pick(60, 1200), 8, func(i int) { c17FailingSends(c, c.Rand("failsend", i), i) })
 	nC := c.Pick(120, 2000)
 	c.Parallel(nC, 8, func(i int) { c17Pipelined(c, c.Rand("pipe", i), i) })
 }
@@ -266,6 +267,15 @@ func c17Protocol(c *ev.Ctx, r *rand.Rand, caseN int) {
 			}
 			req := basestream.Request{Session: basestream.Session{ID: sid, Start: c17loc(lf.start), Stop: c17loc(lf.stop)},
 				MaxChunks: uint32(r.Intn(int(cfg.MaxResponseChunks) + 1)), MaxPayloadNum: uint32(r.Intn(int(cfg.MaxResponsePayloadNum) + 4)), MaxPayloadSize: uint64(r.Intn(int(cfg.MaxResponsePayloadSize) + 100))}
+			if !isNew && r.Intn(4) == 0 {
+				// a resuming request that names another stop: the session keeps the stop it was opened with
+				other := lf.stop + 1 + r.Intn(6)
+				if r.Intn(2) == 0 && lf.stop > lf.start {
+					other = lf.start + r.Intn(lf.stop-lf.start)
+				}
+				req.Session.Stop = c17loc(other)
+				c.Count("resumes_naming_another_stop", 1)
+			}
 			if r.Intn(6) == 0 {
 				req.MaxPayloadNum = 0
 			}
